@@ -27,8 +27,8 @@ COMPONENTS = {
                       "std::thread spawn/OS scheduler -> baton scheduler, seeded policies (s4_verif_rt::sched)",
                       "ctrlc + kernel signal delivery -> handler closure run by a simulated thread at a planned step",
                       "wall clock -> plan `now=`; local zone -> TZ; getrandom(2) -> LD_PRELOAD shim seeded by the plan",
-                      "write(2)/writev(2)/read(2) -> the same LD_PRELOAD shim: short writes on stdout, EPIPE, ENOSPC under TMPDIR, EIO on "
-                      "input reads, armed by the plan (otherwise passed through to the kernel)",
+                      "write(2)/writev(2)/read(2) -> the same LD_PRELOAD shim: short writes on stdout/stderr/temporary copies, short reads of "
+                      "inputs, EPIPE, ENOSPC under TMPDIR, EIO on input reads, armed by the plan (otherwise passed through to the kernel)",
                       "deadlines of timed channel operations -> simulated (expire by scheduler decision, budgeted per run)"],
     "uncontrolled": ["rayon pools inside jwalk and evtx (confined to one step; assumed order-preserving)"],
 }
@@ -66,7 +66,9 @@ def _worker(args):
         r = mod.run_case(seed, i, tier)
         for (k, v) in core.IOFAULT_RUNS.items():     # runs executed with a write-level fault armed (preload/seed.c)
             if k == "sw":
-                r.faults["stdout_short_writes(run)"] += v
+                r.faults["short_writes_stdout_stderr_tmp(run)"] += v
+            if k == "sr":
+                r.faults["short_reads_of_inputs(run)"] += v
         return (i, r, None)
     except Exception:
         return (i, None, traceback.format_exc())
